@@ -133,8 +133,15 @@ def curve(rng, n):
         for _ in range(n - 1):
             x.append(x[-1] + rng.choice([1, 1, 2, 4]))
             y.append(max(0.0, y[-1] - rng.choice([0, 0, 1, 2, 3])) if rng.random() < 0.85 else y[-1] + rng.choice([0, 1]))
-        return np.array(list(zip(x, y)), float), 'staircase'
+        pts, vt = gen.near_ties(rng, np.array(list(zip(x, y)), float), 0.2)
+        return pts, 'staircase' + vt
     pts, fam = gen.dyadic_curve(rng, n)
+    if '@' not in fam:
+        pts, vt = gen.magnitude(rng, pts, 0.15)
+        fam += vt
+    if '@' not in fam:
+        pts, vt = gen.near_ties(rng, pts, 0.15)
+        fam += vt
     return pts, fam
 
 
